@@ -34,7 +34,11 @@ META = {
              "exactly one liveness feature each (one observer / post_init observer / observed or depends_on "
              "property / items handler / bare container / legacy listener / delegate / ReadOnly / transient "
              "/ event) goes through the same ten copy modes and the probe of its feature, so that no "
-             "mechanism's re-initialisation is masked by another's.  B: cases = (definition kind, round-trip mode) "
+             "mechanism's re-initialisation is masked by another's; and ~140 generated classes whose single "
+             "trait has an awkward but legal NAME (ending in _items, equal to 'items' / '_items', leading or "
+             "trailing underscore, trait_* like the API, `xs` and `xs_items` both declared) x value type "
+             "(List(Int) / Int) x listener flavour (none, declared observe / on_trait_change / depends_on / "
+             "Property(observe), dynamic observe / on_trait_change).  B: cases = (definition kind, round-trip mode) "
              "with kinds = c01's atomic catalogue + properties (plain/validated/cached/observed, every "
              "getter/setter/validator arity), delegates, events, constants, policies, compounds, mapped, "
              "containers, instances by class/name, adapters, misc; modes = pickle 0/2/5, deepcopy, copy; "
@@ -51,8 +55,8 @@ META = {
                   "live_rejected": 48000, "live_accepted": 27000, "live_converted": 12000,
                   "live_notify_probes": 36000, "live_notifications": 80000, "property_steps": 16000,
                   "readonly_checked": 1300, "container_copies": 1600, "ref_identity_checked": 200,
-                  "deferral_checked": 3500, "min_states": 120, "min_copies": 1200, "min_copies_live": 1200,
-                  "min_notify_probes": 800, "min_checks": 1500,
+                  "deferral_checked": 3500, "min_states": 300, "min_copies": 3000, "min_copies_live": 3000,
+                  "min_notify_probes": 2000, "min_checks": 3000, "min_name_classes": 45, "min_name_states": 180,
                   "def_kinds": 120, "def_roundtrips": 600, "def_roundtrips_sanitized": 300,
                   "def_validate_comparisons": 120000, "def_install_steps": 80000},
         "thorough": {"evaluations": 10000000, "states": 12000, "copies": 80000, "batteries_completed": 80000,
@@ -61,8 +65,9 @@ META = {
                      "live_rejected": 1200000, "live_accepted": 650000, "live_converted": 300000,
                      "live_notify_probes": 900000, "live_notifications": 2000000, "property_steps": 400000,
                      "readonly_checked": 30000, "container_copies": 45000, "ref_identity_checked": 4500,
-                     "deferral_checked": 80000, "min_states": 2500, "min_copies": 25000,
-                     "min_copies_live": 25000, "min_notify_probes": 16000, "min_checks": 33000,
+                     "deferral_checked": 80000, "min_states": 5000, "min_copies": 50000,
+                     "min_copies_live": 50000, "min_notify_probes": 33000, "min_checks": 60000,
+                     "min_name_classes": 45, "min_name_states": 2800,
                      "def_kinds": 120, "def_roundtrips": 600, "def_roundtrips_sanitized": 300,
                      "def_validate_comparisons": 120000, "def_install_steps": 80000},
     },
